@@ -235,10 +235,26 @@ helper2: rts
 
 pub const FILES: &[&str] = &["main.asm", "other.asm", "third.asm"];
 
+/// everything the editor may open as a document: the source files, the project file and a
+/// document that has no file (and no `file:` URI) yet
+pub const DOCS: &[&str] = &["main.asm", "other.asm", "third.asm", "mos.toml", "untitled:Untitled-1"];
+
+pub const TOML_VARIANTS: &[&str] = &[
+    "[build]\nentry = \"main.asm\"\n",
+    "[build]\nentry = \"other.asm\"\n",
+    "[build]\nentry = \"third.asm\"\n",
+    "[build]\nentry = \"missing.asm\"\n",
+    "[build]\nentry = \"main.asm\"\nlisting = true\n\n[formatting]\nmnemonics.casing = \"uppercase\"\n",
+    "[build]\nentry = \n",
+    "",
+    "[build\n",
+];
+
 pub fn variants_of(file: &str) -> &'static [&'static str] {
     match file {
         "main.asm" => MAIN_VARIANTS,
         "other.asm" => OTHER_VARIANTS,
+        "mos.toml" => TOML_VARIANTS,
         _ => THIRD_VARIANTS,
     }
 }
